@@ -24,6 +24,8 @@ ASSUMPTIONS = [
     'splits whose size product n*p is within 1e-9 of a half-integer for a non-dyadic p are skipped as ambiguous',
     'argument objects: the numpy arrays handed to DataSet are re-used across the calls of a history (same objects, views of one parent, several layouts) and must never be modified; '
     'expected values and model inputs come from pristine copies taken when the arrays were created',
+    'input scaling state: for every data set handed in the harness knows the ORIGINAL coordinates of each sample; in any pre-scaled state either the call raises or '
+    'the result must be the one for the learning-time map of the ORIGINAL coordinates (model not consulted where acceptance depends on bitwise float equality)',
     'exact ties of the maximal density are judged "any maximal class" by the oracle (the model takes the first, as numpy.argmax)',
     'one_vs_others only with labels 0..k-1 (the code indexes class counts by label); modified_basis=True is excluded (AssertionError "not yet implemented")',
 ]
@@ -36,6 +38,17 @@ ODD_LABEL_SETS = [[1, 8], [8, 1], [3, 10], [5, 16], [7, 32], [2, 9, 17], [8, 0],
 # layouts of the numpy arrays a history hands to DataSet: a row slice of a larger C array, Fortran order, float32 samples, every second row of a
 # parent, a column block of a wider parent, int32 labels.  (cfg['parent_array']: ALL arrays of a history, the learning data included, are
 # row slices of ONE parent array.)
+# scaling state the USER gives a data set before handing it to __call__/test_data (all relative to the data set itself unless said otherwise):
+#   prescaled            scale_range((0.005, 0.995)): the range the classifier uses internally, but relative to the set's OWN min/max
+#   prescaled-other      scale_range to another range ((0, 1) / (-1, 1) / (0.25, 0.75))
+#   prescaled-corners    scale_range((0.005, 0.995)) on a set that contains the corners of the learned range (own min/max = learning min/max)
+#   byhand-learning-map  shift_value(-learning min), scale_factor(learning factor), shift_value(0.005): the learning-time map applied by hand
+#   byhand-factor        scale_factor(2.0) / shift_value(0.5)
+#   byhand-then-range    scale_factor(0.5) followed by scale_range((0.005, 0.995))
+#   internal             a data set that really is in the internal scaling: get_learning_data() / get_testing_data()
+# (plus 'reuse': a data set already scaled by an earlier call).  Either the call raises, or every sample is placed by the learning-time map of its
+# ORIGINAL coordinates, out-of-range samples are removed, classes are the arg-max there.
+PRESCALED = ['prescaled', 'prescaled-other', 'prescaled-corners', 'byhand-learning-map', 'byhand-factor', 'byhand-then-range', 'internal']
 ARRAY_LAYOUTS = ['slice', 'F', 'f32', 'strided', 'colslice', 'i32labels']
 PERCENTAGES = [1.0, 0.5, 0.75, 0.8, 0.8, 0.9, 0.7, 0.625, 0.875, 0.25, 1, 0.0, 1.5]
 
@@ -174,10 +187,14 @@ def gen_case(rng, tier, idx, big=False):
             ops.append(['other', rng.choice(prev)])                    # the same numpy arrays handed to a SECOND classifier
             continue
         m = rng.randrange(1030, 1400) if big and not ops else (rng.randrange(60, 300) if big else rng.randrange(1, 9))
-        flavour = rng.choices(['inside', 'partly', 'outside', 'unlabelled', 'empty', 'prescaled', 'edge'], [40, 25, 8, 8, 3, 4, 12])[0]
-        if big and flavour in ('empty', 'outside'):
+        flavour = rng.choices(['inside', 'partly', 'outside', 'unlabelled', 'empty', 'edge'] + PRESCALED, [36, 22, 7, 7, 3, 10] + [6, 4, 4, 4, 4, 4, 3])[0]
+        if big and flavour in ('empty', 'outside', 'internal'):
             flavour = 'partly'
-        P = gen_points(rng, {'unlabelled': 'inside', 'prescaled': 'inside', 'empty': 'inside'}.get(flavour, flavour), m, X, lo, hi, dim)
+        # pre-scaled inputs: points inside AND outside the learned range (a pre-scaled set must not smuggle out-of-range samples in)
+        P = gen_points(rng, {'unlabelled': 'inside', 'empty': 'inside', 'prescaled-corners': 'inside', 'internal': 'inside'}.get(flavour, 'partly' if flavour in PRESCALED else flavour),
+                       m, X, lo, hi, dim)
+        if flavour == 'prescaled-corners':
+            P = P + [list(lo), list(hi)]       # own min/max = the learned range: scale_range((0.005, 0.995)) reproduces the learning-time map
         L = []
         for p in P:
             j = min(range(k), key=lambda jj: sum((p[t] - centres[jj][t]) ** 2 for t in range(dim)))
@@ -190,7 +207,7 @@ def gen_case(rng, tier, idx, big=False):
         if flavour == 'empty':
             P, L = [], []
         op = [kind, P, L, flavour]
-        if P and kind == 'call' and flavour != 'prescaled' and rng.random() < 0.15:
+        if P and kind == 'call' and flavour not in PRESCALED and rng.random() < 0.15:
             op = [kind, P, [-1] * len(P), flavour, 'nolabels']         # DataSet(X): a bare sample array, no label array
         elif P and rng.random() < 0.3:
             op.append(rng.choice(ARRAY_LAYOUTS))                       # how the numpy arrays handed to DataSet are laid out
@@ -346,7 +363,7 @@ def impl_run(case):
     if cfg.get('parent_array'):
         # ONE parent array for the whole history: the learning samples first, then the points of every later call (row slices = views)
         blocks = [(None, case['X'], case['y'])] + [(j, o[1], o[2]) for j, o in enumerate(case['ops'])
-                                                   if o[0] in ('call', 'test') and o[3] not in ('reuse', 'rewrap', 'prescaled') and o[1] and len(o) == 4]
+                                                   if o[0] in ('call', 'test') and o[3] not in ['reuse', 'rewrap'] + PRESCALED and o[1] and len(o) == 4]
         PX = np.array([p for _, P_, _ in blocks for p in P_], dtype=np.float64).reshape(-1, dim)
         PY = np.array([l for _, _, L_ in blocks for l in L_], dtype=np.int64)
         args.add('parent sample array', PX); args.add('parent label array', PY)
@@ -499,6 +516,7 @@ def impl_run(case):
     prev_test = [list(out['init']['test'][0]), list(out['init']['test'][1])]
     objs = {}
     held = {}            # op index -> (X array, y array, pristine samples, pristine labels)
+    origin = {}          # op index of a DataSet object -> ORIGINAL coordinates of the rows it holds now (None: unknown)
     clf2 = [None]
     for jop, op in enumerate(case['ops']):
         if out['ops']:
@@ -667,22 +685,58 @@ def impl_run(case):
                     args.add('parent array of call %d' % jop, pa)
             held[jop] = (Xa, ya, [[float(v) for v in r_] for r_ in Xa.copy()], [int(v) for v in ya.copy()])
             d = DataSet(Xa) if ent['array'] == 'nolabels' else DataSet((Xa, ya))
-            if flavour == 'prescaled':
-                d.scale_range((LO, HI))
+            try:
+                if flavour in ('prescaled', 'prescaled-corners'):
+                    d.scale_range((LO, HI))
+                elif flavour == 'prescaled-other':
+                    d.scale_range([(0.0, 1.0), (-1.0, 1.0), (0.25, 0.75)][jop % 3])
+                elif flavour == 'byhand-learning-map':
+                    d.shift_value(-np.array(mn0)); d.scale_factor(np.array(fac0)); d.shift_value(LO)
+                elif flavour == 'byhand-factor':
+                    d.scale_factor(2.0) if jop % 2 else d.shift_value(0.5)
+                elif flavour == 'byhand-then-range':
+                    d.scale_factor(0.5); d.scale_range((LO, HI))
+            except CaseTimeout:
+                raise
+            except Exception as e:
+                ent['prescale_exc'] = (type(e).__name__, str(e)[:100])
+        internal = False
+        if flavour == 'internal':
+            # a data set that really is in the internal scaling (the ORIGINAL coordinates are those the learning-time map sends to its samples)
+            d = clf.get_learning_data() if (jop % 2 or clf.get_testing_data().is_empty()) else clf.get_testing_data()
+            held.pop(jop, None)
+            internal = True
+            ent['array'] = 'internal'
         objs[jop] = d
         raw = c18.snap(d)
-        if flavour not in ('reuse', 'prescaled') and jop in held:
+        if flavour not in ['reuse'] + PRESCALED and jop in held:
             # what the caller passed: the PRISTINE content of the arrays (truth for the oracle and the model), whatever the arrays hold by now
             raw = [held[jop][2], held[jop][3]] + raw[2:]
         ent['raw'] = raw
         P, L = raw[0], raw[1]
-        # expected positions / filter in the scaling fixed at learning time (oracle's own computation)
-        pos = [[(x[j] - mn0[j]) * fac0[j] + LO for j in range(dim)] for x in P] if not raw[c18.SC] else [list(x) for x in P]
-        ent['ambiguous'] = int(any(abs(v - LO_CUT) < 1e-9 or abs(v - HI_CUT) < 1e-9 for p in pos for v in p))
-        if raw[c18.SC] and raw[c18.SC + 2] and raw[c18.SC + 2][0] == 1 and len(raw[c18.SC + 2][1]) == len(fac0) and \
+        scaled_in = bool(raw[c18.SC])
+        ent['input_scaling'] = flavour if (flavour in PRESCALED or flavour == 'reuse') else 'unscaled'
+        # ORIGINAL (unscaled) coordinates of the rows the data set holds right now; None = not known to the harness
+        if internal:
+            orig = None
+        elif flavour == 'reuse':
+            orig = origin.get(op[1])
+        else:
+            orig = held[jop][2] if jop in held else []
+        if orig is not None and len(orig) != len(P):
+            orig = None
+        # expected positions / filter in the scaling fixed at learning time, from the ORIGINAL coordinates (oracle's own computation)
+        if internal:
+            pos = [list(x) for x in P]
+        elif orig is not None:
+            pos = [[(x[j] - mn0[j]) * fac0[j] + LO for j in range(dim)] for x in orig]
+        else:
+            pos = None
+        ent['ambiguous'] = int(pos is not None and any(abs(v - LO_CUT) < 1e-9 or abs(v - HI_CUT) < 1e-9 for p in pos for v in p))
+        if scaled_in and raw[c18.SC + 2] and raw[c18.SC + 2][0] == 1 and len(raw[c18.SC + 2][1]) == len(fac0) and \
                 all(_close(a, b) for a, b in zip(raw[c18.SC + 2][1], fac0)):
-            ent['ambiguous'] = 1      # pre-scaled input whose factor equals the learning factor up to rounding: float equality, not decidable exactly
-        keep = [i for i, p in enumerate(pos) if all(LO_CUT <= v <= HI_CUT for v in p)]
+            ent['ambiguous_model'] = 1      # pre-scaled input whose factor equals the learning factor up to rounding: float equality, not decidable exactly by the model
+        keep = [i for i, p in enumerate(pos) if all(LO_CUT <= v <= HI_CUT for v in p)] if pos is not None else None
         res = None
         try:
             pr = bool(cfg.get('print_tests'))
@@ -705,18 +759,35 @@ def impl_run(case):
         if ent['calc'][:len(prev_calc)] != prev_calc:
             ent['viol'].append(dict(kind='earlier-classes-changed', sig=dict(call=op[0]), why='calculated classes were %r, now %r' % (prev_calc[:40], ent['calc'][:40])))
         if ent['ambiguous']:
+            origin[jop if flavour != 'reuse' else op[1]] = None
             prev_calc = ent['calc']
             prev_test = [tsn[0], tsn[1]]
             continue
-        prescaled_mismatch = bool(raw[c18.SC])
+        prescaled_mismatch = scaled_in and not internal
+        origin[jop if flavour != 'reuse' else op[1]] = None
+        if flavour == 'reuse':
+            origin[jop] = None
+        if keep is None:
+            # a re-used data set whose original coordinates were lost (an earlier call failed half-way): nothing to judge against
+            ent['no_origin'] = 1
+            keep = list(range(len(P)))
+            pos = [list(x) for x in P]
         if ent['exc'] is None:
-            # retained samples: exactly those in range, at the expected positions, labels attached
+            # retained samples: exactly those whose ORIGINAL position lies in the learned range, at the learning-time map of their ORIGINAL
+            # coordinates, labels attached - whatever scaling state the data set was handed in
             kept_pos = after[0]
-            if prescaled_mismatch:
+            if ent.get('no_origin'):
                 pass
             elif len(kept_pos) != len(keep) or any(not _close(a, b) for i, r in zip(keep, kept_pos) for a, b in zip(r, pos[i])):
-                ent['viol'].append(dict(kind='scaling-or-filter-wrong', sig=dict(call=op[0]),
-                                        why='retained samples %r, expected the in-range samples %r of the input at %r' % (kept_pos[:6], keep[:12], [pos[i] for i in keep][:6])))
+                wrong_kind = 'prescaled-input-misplaced' if scaled_in else 'scaling-or-filter-wrong'
+                nout = len(P) - len(keep)
+                ent['viol'].append(dict(kind=wrong_kind, sig=dict(call=op[0], **(dict(input_scaling=ent['input_scaling']) if scaled_in else {})),
+                                        why='%s accepted a data set in the scaling state %r: retained %d samples at %r; the learning-time map of the ORIGINAL coordinates puts '
+                                            '%d of the %d samples in range (indices %r) at %r%s' % (
+                                                op[0], ent['input_scaling'], len(kept_pos), kept_pos[:4], len(keep), len(P), keep[:12], [pos[i] for i in keep][:4],
+                                                '; %d out-of-range samples were neither removed nor reported' % (len(kept_pos) - len(keep)) if len(kept_pos) > len(keep) and nout else '')
+                                        if scaled_in else
+                                        'retained samples %r, expected the in-range samples %r of the input at %r' % (kept_pos[:6], keep[:12], [pos[i] for i in keep][:6])))
             elif after[1] != [L[i] for i in keep]:
                 ent['viol'].append(dict(kind='labels-detached', sig=dict(call=op[0]), why='labels of the retained samples %r, expected %r' % (after[1][:20], [L[i] for i in keep][:20])))
             if op[0] == 'call':
@@ -755,7 +826,7 @@ def impl_run(case):
                     ent['viol'].append(dict(kind='testing-data-content-wrong', sig={}, why='testing data after test_data are not the earlier testing data followed by the tested labelled in-range samples'))
         else:
             # a raising call: legitimate when nothing (labelled) is left to classify / input empty / scaling mismatch
-            legit = (not P) or (not keep) or prescaled_mismatch or (op[0] == 'test' and all(L[i] < 0 for i in keep))
+            legit = (not P) or (not keep) or prescaled_mismatch or bool(ent.get('no_origin')) or (op[0] == 'test' and all(L[i] < 0 for i in keep))
             pr = int(bool(cfg.get('print_tests')))
             if not legit:
                 ent['viol'].append(dict(kind='call-raises', sig=dict(call=op[0], exc=ent['exc'][0], print_incorrect_points=pr),
@@ -765,6 +836,13 @@ def impl_run(case):
             if ent['calc'] != prev_calc:
                 ent['viol'].append(dict(kind='failed-call-changes-bookkeeping', sig=dict(call=op[0], print_incorrect_points=pr),
                                         why='a raising %s changed the calculated classes (%d -> %d)' % (op[0], len(prev_calc), len(ent['calc']))))
+        if not ent.get('no_origin') and not internal and not ent.get('result_overwritten'):
+            base_orig = orig if orig is not None else None
+            if base_orig is not None:
+                if len(after[0]) == len(keep) and ent['exc'] is None:
+                    origin[jop if flavour != 'reuse' else op[1]] = [base_orig[i] for i in keep]
+                elif len(after[0]) == len(base_orig):
+                    origin[jop if flavour != 'reuse' else op[1]] = list(base_orig)          # the call failed before removing anything
         prev_calc = ent['calc']
         prev_test = [tsn[0], tsn[1]]
     if out['ops']:
@@ -1007,6 +1085,8 @@ def judge(chk, cases, impl, variant):
             chk.count('op=%s' % ent['op'] + ('/' + o[3] if ent['op'] in ('call', 'test') else ''))
             if ent.get('array'):
                 chk.count('array=' + ent['array'])
+            if ent.get('input_scaling'):
+                chk.count('input-scaling=%s/%s' % (ent['input_scaling'], 'raises' if ent.get('exc') else 'accepted'))
             if ent['op'] in ('call', 'test') and ent.get('raw'):
                 nn = len(ent['raw'][0])
                 chk.count('call-size=%s' % ('0' if nn == 0 else '1-8' if nn <= 8 else '9-300' if nn <= 300 else '>1000' if nn > 1000 else '301-1000'))
@@ -1093,6 +1173,10 @@ def judge(chk, cases, impl, variant):
             obs, mcalc = mo_
             if ent.get('stop_model'):
                 chk.count('history-cut:call-crashed')
+                okc = False
+                break
+            if ent.get('ambiguous_model') and not ent.get('ambiguous') and not ent.get('exc'):
+                chk.count('ambiguous:model-float-equality-of-factors')
                 okc = False
                 break
             if ent.get('ambiguous'):
